@@ -62,6 +62,9 @@ class Batch:
                 elif proj == "header-value":
                     v = b["ok"]["value"]         # CPython reads source with universal newlines
                     b = {"ok": v.replace("\r\n", "\n").replace("\r", "\n") if isinstance(v, str) else v}
+                elif proj == "paths":
+                    # the implementation joins the tokens without separator ("OLS"); the model with dots ("O.L.S")
+                    b = {"ok": [[k, q.replace(".", "")] for k, q in b["ok"]]}
                 elif proj == "closure":
                     b = {"ok": [[x - 1 for x in g] for g in b["ok"]]}
                 elif proj == "strtype":
@@ -554,4 +557,61 @@ def stage_closure(batch, n, edges):
     # the model sees n+1 models (Root first, unrelated to everything): shift positions by one
     batch.add({"op": "closure", "n": n + 1, "edges": [[a + 1, b + 1] for a, b in edges]}, ans,
               {"n": n, "edges": edges, "project": "closure"})
+    return ans
+
+
+def enc_pval(v):
+    """converted value of the real post-init -> the model's PVal vocabulary"""
+    from json_to_models.dynamic_typing import StringSerializable as SS
+    if isinstance(v, SS):
+        return ["parsed", type(v).__name__]
+    if type(v) is list:
+        return ["list", [enc_pval(x) for x in v]]
+    if isinstance(v, dict):
+        return ["dict", [[k, enc_pval(x)] for k, x in v.items()]]
+    return ["raw", conv.enc_json(v)]
+
+
+def annotation_of(ty):
+    """typing object of a chain type (what `self.__annotations__[name]` holds for base-style generators)"""
+    import typing
+    if isinstance(ty, list):
+        if ty[0] == "ser":
+            return conv.SER_CLASSES[ty[1]]
+        if ty[0] == "opt":
+            return typing.Optional[annotation_of(ty[1])]
+        if ty[0] == "list":
+            return typing.List[annotation_of(ty[1])]
+        if ty[0] == "dict":
+            return typing.Dict[str, annotation_of(ty[1])]
+    return {"int": int, "str": str, "float": float, "bool": bool, "null": type(None)}.get(ty, typing.Any)
+
+
+def stage_convert(batch, ty, path, value, registry):
+    from json_to_models.models.string_converters import _process_string_field_value
+    values, keys = set(), set()
+    conv.walk_strings(value, values, keys)
+    orc = conv.oracles(registry, values, keys, extra_classes=list(conv.SER_CLASSES.values()))
+
+    def run():
+        return enc_pval(_process_string_field_value(list(path), copy.deepcopy(value), annotation_of(ty)))
+
+    ans = impl_call(run)
+    if "err" in ans and ans["err"] == "AttributeError":
+        ans["err"] = "TypeError"        # the model has one class for "wrong kind of value"
+    batch.add({"op": "convert", "ty": ty, "path": list(path), "in": conv.enc_json(value), "orc": orc}, ans,
+              {"ty": ty, "path": path, "value": value})
+    return ans
+
+
+def stage_paths(batch, fields):
+    from json_to_models.dynamic_typing import ModelMeta
+    from json_to_models.models.string_converters import get_string_field_paths
+
+    def run():
+        m = ModelMeta(conv.dec_ty(["obj", fields]), "1A")
+        return [[k, p if isinstance(p, str) else ""] for k, p in get_string_field_paths(m)]
+
+    ans = impl_call(run)
+    batch.add({"op": "paths", "in": fields}, ans, {"fields": fields, "project": "paths"})
     return ans
